@@ -98,6 +98,7 @@ pub fn run_all<P: Send + Sync + 'static>(paths: Vec<PathRec<P>>, run: Runner<P>,
     let progress: Option<Arc<Mutex<std::fs::File>>> =
         arg_val(args, "--progress").and_then(|f| std::fs::OpenOptions::new().create(true).append(true).open(f).ok()).map(|f| Arc::new(Mutex::new(f)));
     let paths = Arc::new(paths);
+    let hangs = Arc::new(AtomicUsize::new(0));
     let next = Arc::new(AtomicUsize::new(0));
     let results = Arc::new(Mutex::new(Vec::new()));
     let obs_out = Arc::new(Mutex::new(Vec::<(u64, Vec<String>)>::new()));
@@ -107,6 +108,7 @@ pub fn run_all<P: Send + Sync + 'static>(paths: Vec<PathRec<P>>, run: Runner<P>,
         let (paths, next, results, obs_out, run) = (paths.clone(), next.clone(), results.clone(), obs_out.clone(), run.clone());
         let want_obs = obs_file.is_some();
         let progress = progress.clone();
+        let hangs = hangs.clone();
         let mark = move |tag: &str, id: u64| {
             if let Some(f) = &progress {
                 use std::io::Write;
@@ -118,11 +120,19 @@ pub fn run_all<P: Send + Sync + 'static>(paths: Vec<PathRec<P>>, run: Runner<P>,
             if i >= paths.len() {
                 break;
             }
+            // code that blocks where the unchanged code does not costs HANG_TIMEOUT per path: after a few dozen of
+            // them the verdict on conformance is clear and the rest of the tour is not executed
+            if hangs.load(Ordering::SeqCst) >= 30 {
+                continue;
+            }
             mark("S", paths[i].id);
             let sampled = obs_sample > 0 && (paths[i].id % obs_sample == 0);
             let (r, lines) = run(&paths[i], want_obs);
             if want_obs && (!r.conform || sampled) {
                 obs_out.lock().unwrap().push((paths[i].id, lines));
+            }
+            if r.hung {
+                hangs.fetch_add(1, Ordering::SeqCst);
             }
             results.lock().unwrap().push(r);
             mark("E", paths[i].id);
@@ -136,7 +146,7 @@ pub fn run_all<P: Send + Sync + 'static>(paths: Vec<PathRec<P>>, run: Runner<P>,
     let total = results.len();
     let conform = results.iter().filter(|r| r.conform).count();
     let summary = json!({
-        "paths": total, "conform": conform, "nonconform": total - conform, "hung": 0,
+        "paths": total, "not_executed_after_hangs": paths.len() - total, "conform": conform, "nonconform": total - conform, "hung": 0,
         "inconclusive": results.iter().filter(|r| r.inconclusive).count(),
         "steps": results.iter().map(|r| r.steps).sum::<usize>(), "wall_s": t0.elapsed().as_secs_f64(),
         "first_divergences": results.iter().filter(|r| !r.conform).take(20).collect::<Vec<_>>(),
